@@ -19,7 +19,7 @@ FIELDS = ["pos", "rpos", "roff", "rcur", "rnxt", "rprv", "noeol"]
 
 
 def main(ctx, args):
-    nlines = sum(13 ** i for i in range(0, 3 + 1)) if ctx.quick else sum(13 ** i for i in range(0, 4 + 1))
+    nlines = sum(14 ** i for i in range(0, 3 + 1)) if ctx.quick else sum(14 ** i for i in range(0, 4 + 1))
     cases, info = line_tables(ctx, nlines, 4 if ctx.quick else 6)
     cases += mark_tables(ctx, 30)        # nested direction marks: visual orders that are not their own inverse
     results = run_lines(ctx, cases)
